@@ -9,6 +9,7 @@ import JominiModel.Proofs.TextReaderFaithful
 import JominiModel.Proofs.TextReaderUnfit
 import JominiModel.Proofs.TextReaderFull
 import JominiModel.Proofs.TextReaderBuf
+import JominiModel.Proofs.TextReaderFaithfulX
 import JominiModel.Generated.Tables
 /-
 C07 — the streaming text reader is independent of read chunking and buffer size.
@@ -522,8 +523,128 @@ theorem C07_recycled_buffer (buf : Bytes) (sched : List Step) (data : Bytes) :
 theorem C07_recycled_buffer_call (fuel : Nat) (c : BReader) (h : c.WF) :
     (bnextOpt fuel c).view = nextOpt fuel c.view ∧ (bnextOpt fuel c).WF := bnextOpt_view fuel c h
 
+/-- **`C07_recycled_buffer_api`: the same for the whole API.**  `read`, `read_bytes(n)`, `skip_container` (its 8-byte loads
+and byte reads see the allocation, bounded by its pointer comparisons) and `skip_unquoted_value` (its 4-byte load) over the
+concrete buffer: every SEQUENCE of calls in any order, continuing after errors, from a reader built on a caller-provided
+buffer with arbitrary contents, observes exactly what the same calls observe on the abstract reader with a buffer of the
+same length — tokens, byte slices, errors —; hence the same for any two buffers of equal length. -/
+theorem C07_recycled_buffer_api (fuel : Nat) (ops : List ApiCall) (buf : Bytes) (sched : List Step) (data : Bytes) :
+    bapiRun fuel ops (BReader.ofBuffer buf sched data) = apiRun fuel ops (fromReader buf.length sched data) ∧
+    (∀ buf' : Bytes, buf'.length = buf.length →
+      bapiRun fuel ops (BReader.ofBuffer buf' sched data) = bapiRun fuel ops (BReader.ofBuffer buf sched data)) := by
+  have h : ∀ b : Bytes, bapiRun fuel ops (BReader.ofBuffer b sched data) = apiRun fuel ops (fromReader b.length sched data) :=
+    fun b => bapiRun_view fuel ops (BReader.ofBuffer b sched data) ⟨Nat.le_refl _, Nat.zero_le _⟩
+  refine ⟨h buf, fun buf' hl => ?_⟩
+  rw [h buf', h buf, hl]
+
+/-- each call on any well-formed concrete reader (`start ≤ end ≤ len`) -/
+theorem C07_recycled_buffer_calls (fuel n : Nat) (c : BReader) (h : c.WF) :
+    ((bread fuel c).view = read fuel c.view ∧ (bread fuel c).WF) ∧
+    ((breadBytes fuel c n).view = readBytes fuel c.view n ∧ (breadBytes fuel c n).WF) ∧
+    ((bskipContainer fuel c).view = skipContainer fuel c.view ∧ (bskipContainer fuel c).WF) ∧
+    ((bskipUnquotedValue fuel c).view = skipUnquotedValue fuel c.view ∧ (bskipUnquotedValue fuel c).WF) :=
+  ⟨bread_view fuel c h, breadBytes_view fuel c n h, bskipContainer_view fuel c h, bskipUnquotedValue_view fuel c h⟩
+
+-- a buffer full of `}`: read two tokens, skip the container, read on — the stale braces are never counted
+example : bapiRun 60 [.next, .next, .next, .skipContainer, .next, .next]
+    (BReader.ofBuffer (List.replicate 12 125) [.give 5, .repeat_ 3] [97, 61, 123, 32, 123, 32, 120, 32, 125, 32, 125, 32, 98, 10]) =
+    [.next (some (.unquoted [97])), .next (some (.op .eq)), .next (some .open_), .unit, .next (some (.unquoted [98])), .next none] := by
+  decide +kernel
+
 -- a buffer full of `"`: the bytes behind the window are never taken for the closing quote
 example : (streamTokensBuf (List.replicate 16 34) [.give 3, .repeat_ 2] [97, 61, 34, 98, 99, 34, 32, 120, 10]).toks =
     [.unquoted [97], .op .eq, .quoted [98, 99], .unquoted [120]] := by decide +kernel
+
+/-! ### `@variable`, `@[ … ]`, and scalars that begin with `?` -/
+
+/-- **`C07_slice_faithful_x`: faithfulness with `@variable` and `@[ … ]` scalars.**  As `C07_slice_faithful`, over the
+extended layout model `ValidMX` (`Proofs/TextReaderFaithfulX.lean`): every key and value may also be
+* `@name` — `@` followed by at least one byte, no boundary byte, in front of a boundary byte or the end of the input: read
+  back as ONE unquoted token `@name`; or
+* `@[body]` — `body` any bytes without `]` (blanks, operators, braces, quotes, `#`, newlines): read back as ONE unquoted
+  token from `@` up to and including the FIRST `]`; nothing is required of what follows the `]`.
+(`ValidM ms gt → ValidMX ms gt`: `C07_valid_to_x`.) -/
+theorem C07_slice_faithful_x (ms : DMembers) (gt : Bytes) (bom : Bool) (hv : ValidMX ms gt) (hgt : EndGap gt)
+    (hclash : bom = false → ¬∃ r', renderM ms ++ gt = 0xef :: 0xbb :: 0xbf :: r') :
+    (sliceTokens (bomBytes bom ++ (renderM ms ++ gt))).toks = (itemsM ms).map (fun x => x.2.tok) ∧
+    (sliceTokens (bomBytes bom ++ (renderM ms ++ gt))).out = .end_ ∧
+    (sliceTokens (bomBytes bom ++ (renderM ms ++ gt))).final.position = (bomBytes bom ++ (renderM ms ++ gt)).length :=
+  slice_faithfulX ms gt bom hv hgt hclash
+
+/-- the same at the level of lexeme lists -/
+theorem C07_slice_faithful_lexemes_x (items : List (Bytes × Lexeme)) (gt : Bytes) (bom : Bool) (hv : ValidLexX items gt)
+    (hclash : bom = false → ¬∃ r', renderLex items gt = 0xef :: 0xbb :: 0xbf :: r') :
+    (sliceTokens (bomBytes bom ++ renderLex items gt)).toks = items.map (fun x => x.2.tok) ∧
+    (sliceTokens (bomBytes bom ++ renderLex items gt)).out = .end_ ∧
+    (sliceTokens (bomBytes bom ++ renderLex items gt)).final.position = (bomBytes bom ++ renderLex items gt).length :=
+  slice_faithful_lexemesX items gt bom hv hclash
+
+/-- the extended layout model contains the old one -/
+theorem C07_valid_to_x (ms : DMembers) (gt : Bytes) (hv : ValidM ms gt) : ValidMX ms gt := ValidM.toX ms gt hv
+
+/-- **`C07_stream_faithful_x`**: … and for every fault-free read schedule and every buffer capacity that fits
+(`need (rendering) ≤ cap`; an `@[ … ]` expression must fit the buffer whole), the STREAMING reader returns exactly the
+lexeme list of the document, ends cleanly, at the end of the input; with a smaller buffer it ends in `BufferFull`
+(`C07_buffer_full_iff`). -/
+theorem C07_stream_faithful_x (ms : DMembers) (gt : Bytes) (bom : Bool) (cap : Nat) (sched : List Step)
+    (hv : ValidMX ms gt) (hgt : EndGap gt)
+    (hclash : bom = false → ¬∃ r', renderM ms ++ gt = 0xef :: 0xbb :: 0xbf :: r')
+    (hw : WfSched sched) (hnf : NoFaults sched) (hfit : need (bomBytes bom ++ (renderM ms ++ gt)) ≤ cap) :
+    (streamTokens cap sched (bomBytes bom ++ (renderM ms ++ gt))).toks = (itemsM ms).map (fun x => x.2.tok) ∧
+    (streamTokens cap sched (bomBytes bom ++ (renderM ms ++ gt))).out = .end_ ∧
+    (streamTokens cap sched (bomBytes bom ++ (renderM ms ++ gt))).final.position =
+      (bomBytes bom ++ (renderM ms ++ gt)).length := by
+  obtain ⟨s1, s2, s3⟩ := C07_slice_faithful_x ms gt bom hv hgt hclash
+  obtain ⟨e1, e2, e3⟩ := C07_stream_eq_slice_fits _ cap sched hw hnf hfit
+  refine ⟨e1.trans s1, e2.trans s2, ?_⟩
+  exact (e3 (e2.trans s2)).1
+
+-- `@v = @[ 1 + { 2 } ] x = @w`: a variable key, an interpolated expression with blanks, an operator and braces, a variable value
+example :
+    let doc : DMembers :=
+      .field [] false [64, 118] [32] .eq (.scal [32] false [64, 91, 32, 49, 32, 43, 32, 123, 32, 50, 32, 125, 32, 93])
+        (.field [32] false [120] [32] .eq (.scal [32] false [64, 119]) .nil)
+    (sliceTokens (renderM doc ++ [10])).toks = (itemsM doc).map (fun x => x.2.tok) ∧
+    (itemsM doc).map (fun x => x.2.tok) =
+      [.unquoted [64, 118], .op .eq, .unquoted [64, 91, 32, 49, 32, 43, 32, 123, 32, 50, 32, 125, 32, 93],
+       .unquoted [120], .op .eq, .unquoted [64, 119]] := by
+  decide +kernel
+
+/-- **`C07_known_question_scalar`: an unquoted scalar that begins with `?` is NOT read back as one scalar.**  Wherever such
+a scalar `?x…` (`x ≠ =`) stands in a rendering — after any valid lexemes `items1` and a gap `g` —, the reader returns the
+tokens of `items1` and then the operator token `Exists` for the `?` alone (reader.rs: the `?` arm emits `Operator::Exists`
+with or without a following `=`); the rest `x…` is lexed on its own.  So the token list differs from the document's lexeme
+list at exactly that position: this shape — and no other — is what `SafeScal` excludes. -/
+theorem C07_known_question_scalar (items1 rest : List (Bytes × Lexeme)) (g : Bytes) (c : UInt8) (r gt : Bytes) (bom : Bool)
+    (h1 : ValidPreX items1 (g ++ 63 :: c :: (r ++ renderLex rest gt))) (hg : Gap g) (hc : (c == 61) = false)
+    (hclash : bom = false → ¬∃ r', renderLex (items1 ++ (g, Lexeme.scalar false (63 :: c :: r)) :: rest) gt = 0xef :: 0xbb :: 0xbf :: r') :
+    (∃ more, (sliceTokens (bomBytes bom ++ renderLex (items1 ++ (g, Lexeme.scalar false (63 :: c :: r)) :: rest) gt)).toks =
+      items1.map (fun x => x.2.tok) ++ Token.op .exists_ :: more) ∧
+    (sliceTokens (bomBytes bom ++ renderLex (items1 ++ (g, Lexeme.scalar false (63 :: c :: r)) :: rest) gt)).toks ≠
+      (items1 ++ (g, Lexeme.scalar false (63 :: c :: r)) :: rest).map (fun x => x.2.tok) := by
+  obtain ⟨more, h⟩ := question_splits items1 rest g c r gt bom h1 hg hc hclash
+  refine ⟨⟨more, h⟩, ?_⟩
+  rw [h]
+  intro he
+  simp only [List.map_append, List.map_cons, List.append_cancel_left_eq, List.cons.injEq, Lexeme.tok] at he
+  exact absurd he.1 (by simp)
+
+-- `a=?b c`: the reader returns `a`, `=`, `Exists`, `b`, `c`
+example : (sliceTokens [97, 61, 63, 98, 32, 99, 10]).toks =
+    [.unquoted [97], .op .eq, .op .exists_, .unquoted [98], .unquoted [99]] := by decide +kernel
+
+/-- **other shapes the reader does not read back as written** (each decided on the model; the harness op `tlex` replays
+them on the real code):
+* a lone `@` at the very end of the input is an `Eof` error (the `@` arm asks for one more byte; `@x` at the end is fine);
+* vertical tab and form feed are boundary bytes but not blanks: between two lexemes they START an unquoted token
+  (`1\x0bb` reads as `1`, `\x0bb`);
+* `!x` reads as the operator `NotEqual` followed by `x`, like `?x`. -/
+theorem C07_known_reader_shapes :
+    (sliceTokens [97, 61, 64]).out = .err .eof ∧
+    (sliceTokens [97, 61, 64, 120]).toks = [.unquoted [97], .op .eq, .unquoted [64, 120]] ∧
+    (sliceTokens [97, 61, 49, 11, 98, 61, 50, 10]).toks =
+      [.unquoted [97], .op .eq, .unquoted [49], .unquoted [11, 98], .op .eq, .unquoted [50]] ∧
+    (sliceTokens [97, 61, 33, 98, 10]).toks = [.unquoted [97], .op .eq, .op .ne, .unquoted [98]] := by
+  decide +kernel
 
 end Jomini.Props.C07
